@@ -907,6 +907,11 @@ def run_property(res, prop, tier, seed, replay, prop_files):
         t, s = (uist_steps if sc["kind"] == "uist" else jura_steps)(sc, tr)
         terms.append(t)
         steps.append(s)
+    if prop == "C03" and not replay:
+        # "none is lost, duplicated": one backtest driven through more than 11 000 executed orders, read directly on the
+        # real code (one reported trade per executed order); the lockstep with the model on it is in the thorough tier
+        import server
+        res.coverage.update(server.run_long_history(res, prop, wd, seed, 225, 50, lockstep=(tier == "thorough")))
     if prop == "C18":
         # the model takes a constructed order as the code built it, so what each named constructor builds is read
         # directly (always; it is a reading of the property's vocabulary, not a comparison with the model)
